@@ -46,9 +46,23 @@ Definition get_u (n : nat) (bs : bytes) : result (N * bytes) :=
 Definition get_s (n : nat) (bs : bytes) : result (Z * bytes) :=
   '(l, r) <- need n bs ;; Ok (to_signed n (le_decode l), r).
 
+(* the same with a binary counter: sizes come from the wire (up to 2^32), so the model must never build a unary number
+   of that size; recursion is on the bytes that are actually there.  read_uptoN_spec: = read_upto (N.to_nat n). *)
+Fixpoint read_uptoN (n : N) (bs : bytes) : bytes * bytes :=
+  match bs with
+  | [] => ([], [])
+  | b :: r => if (n =? 0)%N then ([], bs) else let '(a, rest) := read_uptoN (N.pred n) r in (b :: a, rest)
+  end.
+(* list[n] for an index from the wire; nthN_spec: = nth_error l (N.to_nat n) *)
+Fixpoint nthN {A} (l : list A) (n : N) : option A :=
+  match l with
+  | [] => None
+  | x :: r => if (n =? 0)%N then Some x else nthN r (N.pred n)
+  end.
+
 (* read(n) with n possibly negative (reads all) *)
 Definition read_z (n : Z) (bs : bytes) : bytes * bytes :=
-  if (n <? 0)%Z then (bs, []) else read_upto (Z.to_nat n) bs.
+  if (n <? 0)%Z then (bs, []) else read_uptoN (Z.to_N n) bs.
 
 Fixpoint assoc_get {A} (k : string) (l : list (string * A)) : option A :=
   match l with [] => None | (k', v) :: r => if String.eqb k k' then Some v else assoc_get k r end.
